@@ -46,6 +46,7 @@ type World struct {
 	allFuncs    map[*ssa.Function]bool
 	phiVisiting map[*ssa.Phi]bool
 	// CanonI: inline simple pure helpers while rendering
+	ledgerKindDepth int
 	inlineHelpers   bool
 	shallowResolve  bool // resolveValue: do not replace helper results by callee-internal values
 	resolveFallible bool // canonResolved: also look through helpers that return an error
